@@ -9,6 +9,7 @@ package acl
 //	prod-cache directed run with the production cache size (1024), with and without evictions
 //	text-shape the same rules behind/between blank lines, comments and white space of many lengths,
 //	           LF/CRLF, with/without a final line end
+//	ace-labels names with "xn--" labels that are / are not punycode, alone and mixed, against ASCII patterns
 
 import (
 	"encoding/json"
@@ -34,6 +35,7 @@ type c09Replay struct {
 	History   []c09Query `json:"history,omitempty"`    // lookups made before, in order
 	Shape     *c09Shape  `json:"text_shape,omitempty"` // part text-shape: what surrounds the rules in the text
 	Query     c09Query   `json:"query"`
+	Twin      *c09Query  `json:"twin_spelling,omitempty"` // part ace-labels: the Unicode spelling of the same IDN name, which must get the same decision
 	Want      string     `json:"want"`
 	Got       string     `json:"got"`
 }
@@ -824,6 +826,132 @@ func c09Enumerate(sh *evidence.Shard) {
 		}
 	}
 
+	// Part 9: "xn--" labels in the looked-up name. Names of 1..2 (thorough 1..3) labels in front of
+	// "example", every label one of: plain, an A-label (valid punycode: the name is an IDN and has a
+	// Unicode spelling), an "xn--" label that is NOT punycode (truncated digits; or encoding nothing
+	// but ASCII) - alone and MIXED in one name, typed and upper-cased with a trailing dot, against
+	// every list of 1..2 (thorough 1..3) ASCII patterns written with the same labels. A name with a
+	// label that is not punycode is no IDN: it is the ASCII name it is typed as, and the property's
+	// clauses apply to it as to every other ASCII name (reference evaluator on the typed name). An
+	// IDN's ACE spelling and Unicode spelling are one host name and must get one decision; nothing
+	// else is demanded of IDN names. (Added after the independently seeded change C09-11: the
+	// matcher kept idna.ToUnicode's partial result when it failed, so a name with one decodable and
+	// one undecodable "xn--" label was compared half decoded and another rule became the first match.)
+	{
+		p9 := sh.Part("ace-labels", "enum")
+		type lab struct{ typed, uni, class string }
+		labs := []lab{
+			{"www", "www", "plain"}, {"bcher", "bcher", "plain"},
+			{"xn--bcher-kva", "b\u00fccher", "a-label"}, // RFC 3492 punycode of "bücher"
+			{"xn--0", "", "not-punycode"},               // a digit run that ends in the middle of a number
+			{"xn--zz-", "", "not-punycode"},             // would stand for the ASCII label "zz", which has no ACE form
+		}
+		pats := []string{"xn--0.xn--bcher-kva.example", "xn--bcher-kva.example", "suffix:xn--bcher-kva.example", "suffix:xn--0.example",
+			"*.b*cher.example", "xn--0.*", "*.xn--bcher-kva.*", "suffix:bcher.example", "zz.*", "*.zz.example", "suffix:xn--zz-.example", "xn--*"}
+		maxN := 2
+		if th {
+			maxN = 3
+		}
+		type nm struct{ typed, uni, class string }
+		var names []nm
+		var genN func(n int, cur []lab)
+		genN = func(n int, cur []lab) {
+			if len(cur) > 0 {
+				x := nm{class: "plain"}
+				for _, l := range cur {
+					x.typed += l.typed + "."
+					if l.class == "a-label" {
+						x.uni += l.uni + "."
+					} else {
+						x.uni += l.typed + "."
+					}
+					if l.class == "not-punycode" || (l.class == "a-label" && x.class == "plain") {
+						x.class = map[string]string{"not-punycode": "ascii-with-bad-ace-label", "a-label": "idn"}[l.class]
+					}
+				}
+				x.typed, x.uni = x.typed+"example", x.uni+"example"
+				names = append(names, x)
+			}
+			if len(cur) == n {
+				return
+			}
+			for _, l := range labs {
+				genN(n, append(cur[:len(cur):len(cur)], l))
+			}
+		}
+		genN(maxN, nil)
+		p9.Alphabet = map[string]any{"ace_label_alphabet": []string{"www (plain)", "bcher (plain)", "xn--bcher-kva (A-label)", "xn--0 (xn-- but not punycode)", "xn--zz- (xn-- but not punycode)"},
+			"names": fmt.Sprintf("1..%d labels + .example, all %d", maxN, len(names)), "spelling": []string{"typed", "UPPER-CASED."}, "patterns": pats,
+			"rule_lists": fmt.Sprintf("every list of 1..%d patterns, labelled A/-, B/9.9.9.9, A/-", maxN)}
+		p9.Bounds = map[string]any{"lookups": "tcp/80, with an empty decision cache, then once more from the cache",
+			"oracle": "plain names and names with a non-punycode xn-- label: reference on the typed name; IDN names: same decision as their Unicode spelling"}
+		var lidx int64
+		var genL func(cur []int) bool
+		genL = func(cur []int) bool {
+			if len(cur) > 0 {
+				lidx++
+				if env.Mine(lidx) {
+					if lidx&15 == 0 && expired(p9, "ace labels", lidx) {
+						return false
+					}
+					var rules []c09Rule
+					for i, pi := range cur {
+						rules = append(rules, c09Rule{Ob: []string{"A", "B", "A"}[i], Addr: pats[pi], Hijack: []string{"", "9.9.9.9", ""}[i]})
+					}
+					ref, rerr := c09RefCompileAll(rules)
+					impl, err := c09Compile(rules, 2)
+					if err != nil || rerr != nil {
+						return c.violate(p9, fmt.Sprintf("ASCII pattern list: implementation says %v, reference says %v", err, rerr), &c09Replay{Kind: "fresh", Rules: rules, CacheSize: 2, Want: "compiles", Got: "error"})
+					}
+				names:
+					for _, n := range names {
+						for si, name := range []string{n.typed, strings.ToUpper(n.typed) + "."} {
+							q := c09Query{Name: name, Proto: c09ProtoTCP, Port: 80}
+							impl.Cache.Purge()
+							got := c09Ask(impl, q)
+							again := c09Ask(impl, q)
+							p9.Evaluations += 2
+							rp := &c09Replay{Kind: "fresh", Rules: rules, CacheSize: 2, Query: q, Got: got.String()}
+							var want c09Ans
+							clause := "a name with an xn-- label is decided differently from the reference"
+							if n.class == "idn" {
+								tq := c09Query{Name: n.uni, Proto: c09ProtoTCP, Port: 80}
+								impl.Cache.Purge()
+								want = c09Ask(impl, tq)
+								p9.Evaluations++
+								rp.Twin, clause = &tq, "the ACE spelling of an IDN name is decided differently from its Unicode spelling "+n.uni
+							} else {
+								want = c09WantAns(rules, c09RefEval(ref, q))
+							}
+							rp.Want = want.String()
+							if got == want && again != got {
+								rp.History, rp.Got, clause = []c09Query{q}, again.String(), "the cached answer differs from the fresh one"
+							}
+							p9.Class(len(cur), cur[0], n.class, si, got.String())
+							if got != want || again != got {
+								if !c.violate(p9, clause, rp) {
+									return false
+								}
+								break names // one report per rule list
+							}
+						}
+					}
+					p9.Count("rule_lists", 1)
+				}
+			}
+			if len(cur) == maxN {
+				return true
+			}
+			for pi := range pats {
+				if !genL(append(cur[:len(cur):len(cur)], pi)) {
+					return false
+				}
+			}
+			return true
+		}
+		genL(nil)
+	}
+
 	// Part 4 (thorough): fresh lookups, lists of length 3
 	if th {
 		p4 := sh.Part("fresh-len3", "enum")
@@ -843,7 +971,7 @@ func c09Enumerate(sh *evidence.Shard) {
 
 func c09ReplayOne(part string, raw json.RawMessage) (bool, bool, string) {
 	switch part {
-	case "fresh-len012", "fresh-len3", "cache-bfs", "prod-cache", "wildcard-grid", "name-characters", "port-boundaries", "text-shape":
+	case "fresh-len012", "fresh-len3", "cache-bfs", "prod-cache", "wildcard-grid", "name-characters", "port-boundaries", "text-shape", "ace-labels":
 	default:
 		return false, false, ""
 	}
@@ -861,6 +989,15 @@ func c09ReplayOne(part string, raw json.RawMessage) (bool, bool, string) {
 	}
 	if err != nil {
 		return true, true, err.Error()
+	}
+	if rp.Twin != nil { // part ace-labels: two spellings of one IDN name, each asked with an empty cache
+		got := c09Ask(impl, rp.Query)
+		impl.Cache.Purge()
+		twin := c09Ask(impl, *rp.Twin)
+		if got != twin {
+			return true, true, fmt.Sprintf("lookup %v returned %s, its Unicode spelling %v returned %s; ACL: %s", rp.Query, got, *rp.Twin, twin, strings.ReplaceAll(rp.Text, "\n", "; "))
+		}
+		return true, false, "both spellings of the name get the same decision"
 	}
 	check := func() string {
 		if rp.CacheSize > 8 {
